@@ -4,11 +4,15 @@
 package rtgen
 
 import (
+	"context"
 	"net/http"
 	"net/http/httptest"
 	"regexp"
+	"runtime"
 	"sort"
 	"strings"
+	"sync"
+	"time"
 
 	"rivaas.dev/router"
 	"rivaas.dev/router/route"
@@ -17,7 +21,9 @@ import (
 )
 
 // ConsT is one constraint call on a route: Kind is one of int, float, uuid, date, datetime, enum
-// (Arg = values joined by '|'), regex (typed, Arg = pattern), where (legacy Where, Arg = pattern).
+// (Arg = values joined by '|'), regex (typed, Arg = pattern), where (legacy Where, Arg = pattern),
+// rejected (a Where call with a pattern that does not compile: the call panics, the caller recovers
+// and goes on; the route is as if the call had not been made).
 type ConsT struct {
 	Name string
 	Kind string
@@ -35,6 +41,23 @@ type RegT struct {
 type ReqT struct {
 	Method string
 	Path   string
+	// Cancelled: the request context is already cancelled when ServeHTTP is entered. Only generated for
+	// requests that no route handler answers (the 405 / 404 / NoRoute clause does not look at the context).
+	Cancelled bool `json:",omitempty"`
+}
+
+// OverlapT: Req is served while another request is in flight on the same router (two goroutines,
+// GOMAXPROCS(1) so that the context pool hands a released context to the next request).
+//   - "handler":   A is held at the entry of its handler, B is served completely, A goes on and reads.
+//   - "end-slow":  A is held in OnRequestEnd of an observability recorder (after its chain has run), B is
+//     dispatched and held at the entry of its handler, A's hook returns, then B goes on and reads.
+//   - "end-panic": as end-slow, but A's hook panics (recovered by the goroutine, as net/http does).
+//
+// Role says which of the two Req is ("A" or "B"); Other is the other request.
+type OverlapT struct {
+	Kind  string
+	Role  string
+	Other ReqT
 }
 
 // EngineT selects the engine configuration (C11); the zero value is the plain tree router.
@@ -57,6 +80,10 @@ type CaseT struct {
 	// Prev: requests served on the same router instance before Req (the router is stateless per the
 	// property: every request of a session is judged on its own by the same oracle).
 	Prev []ReqT
+	// Burst: Req is served many times while the requests of Burst are served concurrently on the same
+	// router by several goroutines (every observation of a burst is judged on its own).
+	Burst   []ReqT    `json:",omitempty"`
+	Overlap *OverlapT `json:",omitempty"`
 }
 
 var Methods = []string{"GET", "POST", "PUT", "PATCH", "DELETE", "HEAD", "OPTIONS"}
@@ -71,6 +98,9 @@ func effectiveSpec(cs []ConsT) []ConsT {
 	typed := map[string]ConsT{}
 	var where []ConsT
 	for _, c := range cs {
+		if c.Kind == "rejected" {
+			continue
+		}
 		if c.Kind == "where" {
 			where = append(where, c)
 		} else {
@@ -178,6 +208,11 @@ func applyCons(rt *route.Route, cs []ConsT) {
 			rt.WhereRegex(c.Name, c.Arg)
 		case "where":
 			rt.Where(c.Name, c.Arg)
+		case "rejected":
+			func() {
+				defer func() { _ = recover() }()
+				rt.Where(c.Name, c.Arg)
+			}()
 		}
 	}
 }
@@ -233,8 +268,22 @@ func Build(c CaseT, ask []string, obs *ObsT) *router.Router {
 		opts = append(opts, router.WithVersioning(version.WithHeaderDetection("X-API-Version"), version.WithDefault(c.Eng.Version)))
 	}
 	r := router.MustNew(opts...)
+	if c.Overlap != nil && strings.HasPrefix(c.Overlap.Kind, "end") {
+		r.SetObservabilityRecorder(recorder{})
+	}
+	shared := obs
 	probe := func(id int, noRoute bool) router.HandlerFunc {
 		return func(ctx *router.Context) {
+			// the observation record (and the hold point) of this very request travel in its context
+			obs := shared
+			if ctx.Request != nil {
+				if h, ok := ctx.Request.Context().Value(hookKey{}).(*reqHook); ok {
+					obs = h.obs
+					if h.park != nil {
+						h.park()
+					}
+				}
+			}
 			obs.Ran = id
 			obs.NoRoute = noRoute
 			obs.Pattern = ctx.RoutePattern()
@@ -343,15 +392,60 @@ func NewSession(c CaseT, ask []string) (s *Session) {
 	return s
 }
 
+type hookKey struct{}
+
+// reqHook travels in the request context: where this request's handler reports, and optional hold
+// points at the entry of the handler (park) and in OnRequestEnd (end).
+type reqHook struct {
+	obs  *ObsT
+	park func()
+	end  func()
+	// faulted: the hook itself is about to panic on purpose (fault injection)
+	faulted bool
+}
+
+// recorder is a minimal ObservabilityRecorder: it only gives a request's hook a place to run after
+// the handler chain (OnRequestEnd).
+type recorder struct{}
+
+func (recorder) OnRequestStart(ctx context.Context, req *http.Request) (context.Context, any) {
+	return ctx, req
+}
+func (recorder) WrapResponseWriter(w http.ResponseWriter, _ any) http.ResponseWriter { return w }
+func (recorder) OnRequestEnd(_ context.Context, state any, _ http.ResponseWriter, _ string) {
+	if req, ok := state.(*http.Request); ok && req != nil {
+		if h, ok := req.Context().Value(hookKey{}).(*reqHook); ok && h.end != nil {
+			h.end()
+		}
+	}
+}
+
 // Serve runs one request through ServeHTTP on the session's router; a panic is an observation.
-func (s *Session) Serve(q ReqT) (o ObsT) {
+func (s *Session) Serve(q ReqT) ObsT { return s.serve(q, &reqHook{}) }
+
+func (s *Session) serve(q ReqT, h *reqHook) (o ObsT) {
 	if s.bad {
 		return ObsT{Panic: true, Ran: -1}
 	}
-	s.cur = ObsT{Ran: -1}
+	cur := ObsT{Ran: -1}
+	h.obs = &cur
+	rec := httptest.NewRecorder()
+	finish := func() ObsT {
+		o := cur
+		o.Status = rec.Code
+		if a := rec.Header().Get("Allow"); a != "" {
+			o.Allow = strings.Split(a, ", ")
+		}
+		o.Exists = s.r.RouteExists(q.Method, q.Path)
+		return o
+	}
 	defer func() {
 		if p := recover(); p != nil {
-			o = ObsT{Panic: true, Ran: -1}
+			if h.faulted { // the injected failure after the response: what was observed until then stands
+				o = finish()
+			} else {
+				o = ObsT{Panic: true, Ran: -1}
+			}
 		}
 	}()
 	req := httptest.NewRequest(q.Method, "/", nil)
@@ -360,15 +454,143 @@ func (s *Session) Serve(q ReqT) (o ObsT) {
 	if s.c.Eng.Version != "" {
 		req.Header.Set("X-API-Version", s.c.Eng.Version)
 	}
-	rec := httptest.NewRecorder()
-	s.r.ServeHTTP(rec, req)
-	o = s.cur
-	o.Status = rec.Code
-	if a := rec.Header().Get("Allow"); a != "" {
-		o.Allow = strings.Split(a, ", ")
+	ctx := context.WithValue(req.Context(), hookKey{}, h)
+	if q.Cancelled {
+		var cancel context.CancelFunc
+		ctx, cancel = context.WithCancel(ctx)
+		cancel()
 	}
-	o.Exists = s.r.RouteExists(q.Method, q.Path)
-	return o
+	s.r.ServeHTTP(rec, req.WithContext(ctx))
+	return finish()
+}
+
+// ObsKey is a canonical text of an observation (to tell different answers to one request apart).
+func ObsKey(o ObsT, ask []string) string {
+	l := hx.NewLine("")
+	ObsTokens(l, o, ask)
+	if !o.Panic {
+		l.Bool(o.Exists)
+	}
+	return l.String()
+}
+
+// ServeBurst serves the requests concurrently: `workers` goroutines, each going `rounds` times through
+// all requests (every worker starts at a different one). It returns, per request, the different
+// observations that were made (exactly one each if the router answers a request the same way every time).
+func (s *Session) ServeBurst(reqs []ReqT, workers, rounds int) [][]ObsT {
+	type seen struct {
+		keys map[string]bool
+		obs  []ObsT
+	}
+	var mu sync.Mutex
+	all := make([]seen, len(reqs))
+	for i := range all {
+		all[i].keys = map[string]bool{}
+	}
+	var wg sync.WaitGroup
+	start := make(chan struct{})
+	for w := 0; w < workers; w++ {
+		wg.Add(1)
+		go func(w int) {
+			defer wg.Done()
+			<-start
+			for n := 0; n < rounds; n++ {
+				for k := range reqs {
+					i := (k + w) % len(reqs)
+					o := s.Serve(reqs[i])
+					key := ObsKey(o, s.ask)
+					mu.Lock()
+					if !all[i].keys[key] {
+						all[i].keys[key] = true
+						all[i].obs = append(all[i].obs, o)
+					}
+					mu.Unlock()
+				}
+			}
+		}(w)
+	}
+	close(start)
+	wg.Wait()
+	out := make([][]ObsT, len(reqs))
+	for i := range all {
+		out[i] = all[i].obs
+	}
+	return out
+}
+
+func waitAny(chs ...<-chan struct{}) bool {
+	t := time.After(30 * time.Second)
+	switch len(chs) {
+	case 1:
+		select {
+		case <-chs[0]:
+			return true
+		case <-t:
+			return false
+		}
+	default:
+		select {
+		case <-chs[0]:
+			return true
+		case <-chs[1]:
+			return true
+		case <-t:
+			return false
+		}
+	}
+}
+
+// ServeOverlap runs the two-request scenario of OverlapT on the session's router and returns both
+// observations. A request that is never released within 30 s is reported as a panic observation.
+func (s *Session) ServeOverlap(kind string, a, b ReqT) (oa, ob ObsT) {
+	defer runtime.GOMAXPROCS(runtime.GOMAXPROCS(1))
+	aHeld, aGo := make(chan struct{}), make(chan struct{})
+	bHeld, bGo := make(chan struct{}), make(chan struct{})
+	var onceA, onceB sync.Once
+	ha := &reqHook{}
+	holdA := func() {
+		first := false
+		onceA.Do(func() { first = true; close(aHeld) })
+		if first {
+			<-aGo
+			if kind == "end-panic" {
+				ha.faulted = true
+				panic("injected fault: OnRequestEnd fails")
+			}
+		}
+	}
+	if kind == "handler" {
+		ha.park = holdA
+	} else {
+		ha.end = holdA
+	}
+	hb := &reqHook{}
+	if kind != "handler" {
+		hb.park = func() {
+			first := false
+			onceB.Do(func() { first = true; close(bHeld) })
+			if first {
+				<-bGo
+			}
+		}
+	}
+	aDone, bDone := make(chan struct{}), make(chan struct{})
+	go func() { defer close(aDone); oa = s.serve(a, ha) }()
+	ok := waitAny(aHeld, aDone)
+	go func() { defer close(bDone); ob = s.serve(b, hb) }()
+	if kind == "handler" {
+		ok = waitAny(bDone) && ok
+	} else {
+		ok = waitAny(bHeld, bDone) && ok
+	}
+	close(aGo)
+	ok = waitAny(aDone) && ok
+	close(bGo)
+	ok = waitAny(bDone) && ok
+	if !ok {
+		return ObsT{Panic: true, Ran: -1}, ObsT{Panic: true, Ran: -1}
+	}
+	return oa, ob
 }
 
 // Observe builds a fresh router, serves the requests of c.Prev and then c.Req, and reports the last one.
@@ -377,8 +599,33 @@ func Observe(c CaseT, ask []string) ObsT {
 	for _, q := range c.Prev {
 		s.Serve(q)
 	}
+	switch {
+	case c.Overlap != nil:
+		if c.Overlap.Role == "A" {
+			o, _ := s.ServeOverlap(c.Overlap.Kind, c.Req, c.Overlap.Other)
+			return o
+		}
+		_, o := s.ServeOverlap(c.Overlap.Kind, c.Overlap.Other, c.Req)
+		return o
+	case len(c.Burst) > 0:
+		// replay of a burst: the answer given alone, unless the burst shows another one
+		alone := s.Serve(c.Req)
+		for try := 0; try < 5; try++ {
+			for _, o := range s.ServeBurst(append([]ReqT{c.Req}, c.Burst...), BurstWorkers, BurstRounds)[0] {
+				if ObsKey(o, ask) != ObsKey(alone, ask) {
+					return o
+				}
+			}
+		}
+		return alone
+	}
 	return s.Serve(c.Req)
 }
+
+const (
+	BurstWorkers = 8
+	BurstRounds  = 120
+)
 
 // InputTokens writes the input part of the case line (everything the Lean driver needs: script,
 // the sat table of every constraint on every slash-separated piece of the path, the request).
